@@ -20,9 +20,12 @@ pub struct WorkerCtx {
 
 impl WorkerCtx {
     pub fn mine(&self, idx: u64) -> bool {
+        crate::common::par::WORKER_BEAT.fetch_add(1, std::sync::atomic::Ordering::Relaxed);
+        crate::common::par::WORKER_UNIT.store(idx, std::sync::atomic::Ordering::Relaxed);
         idx % self.nshards == self.shard
     }
     pub fn count(&mut self, name: &str, n: u64) {
+        crate::common::par::WORKER_BEAT.fetch_add(1, std::sync::atomic::Ordering::Relaxed);
         *self.counters.entry(name.to_string()).or_insert(0) += n;
     }
     pub fn vio<D: FnOnce() -> String, C: FnOnce() -> J>(&mut self, sig: &str, detail: D, case: C) {
@@ -80,6 +83,34 @@ pub fn worker_entry(args: &[String], f: fn(&mut WorkerCtx)) -> i32 {
         samples: vec![],
     };
     crate::common::par::quiet_panics();
+    // stall guard: the worker loops bump a heartbeat at every work unit; a unit normally takes
+    // milliseconds. No beat within the limit = a call into rivia that does not return.
+    {
+        let name = w.name.clone();
+        std::thread::spawn(move || {
+            use std::sync::atomic::Ordering;
+            let limit = crate::common::par::stall_limit();
+            let mut last = (u64::MAX, std::time::Instant::now());
+            loop {
+                std::thread::sleep(std::time::Duration::from_secs(1));
+                let b = crate::common::par::WORKER_BEAT.load(Ordering::Relaxed);
+                if b != last.0 {
+                    last = (b, std::time::Instant::now());
+                } else if last.1.elapsed() > limit {
+                    let unit = crate::common::par::WORKER_UNIT.load(Ordering::Relaxed);
+                    let line = J::obj([
+                        ("sig", J::s(format!("{} worker · hang (a call into rivia does not return)", name))),
+                        ("n", J::i(1)),
+                        ("detail", J::s(format!("worker {} made no progress for {} s while processing work unit {}", name, limit.as_secs(), unit))),
+                        ("case", J::obj([("part", J::s("hang")), ("worker", J::s(&name)), ("unit", J::i(unit as i64))])),
+                    ]);
+                    println!("V\t{}", line.to_string());
+                    println!("DONE");
+                    std::process::exit(0);
+                }
+            }
+        });
+    }
     f(&mut w);
     w.flush();
     0
@@ -133,6 +164,14 @@ pub fn run_workers(ctx: &Ctx, l: &Launch, g: &mut Gathered) {
         if let Some(uid) = l.uid {
             use std::os::unix::process::CommandExt;
             cmd.uid(uid).gid(uid);
+        }
+        unsafe {
+            // a worker must not outlive the check process that started it
+            use std::os::unix::process::CommandExt;
+            cmd.pre_exec(|| {
+                libc::prctl(libc::PR_SET_PDEATHSIG, libc::SIGKILL);
+                Ok(())
+            });
         }
         match cmd.spawn() {
             Ok(c) => children.push((shard, c)),
